@@ -1,5 +1,5 @@
 //! Engine `timer` (C18): every interleaving of the timer protocol of crux_time, driven against the real code.
-//!   timer gen <seed> <n> | timer gen-exh <maxlen> | timer run
+//!   timer gen <seed> <n> | timer gen-exh <maxlen> [cmd|core|legacy] [A|T|alt] | timer run
 //!
 //! case : `<host> <kinds> <action>*`
 //!   host   `cmd`    command API, every timer's Command driven directly (effects()/events()/is_done())
@@ -560,7 +560,8 @@ fn next_actions(prefix: &[char]) -> Vec<char> {
     v
 }
 
-fn gen_exh(maxlen: usize, hosts: &[&str]) {
+/// every action sequence up to `maxlen` over one timer that `next_actions` admits; `kinds`: `A`, `T` or `alt`
+fn gen_exh(maxlen: usize, host: &str, kinds: &str) {
     let out = std::io::stdout();
     let mut out = std::io::BufWriter::new(out.lock());
     fn rec(prefix: &mut Vec<char>, maxlen: usize, emit: &mut dyn FnMut(&[char])) {
@@ -569,10 +570,6 @@ fn gen_exh(maxlen: usize, hosts: &[&str]) {
             return;
         }
         for a in next_actions(prefix) {
-            // two polls in a row: the second is always a no-op; keep one such pair only at the very start
-            if a == 'p' && prefix.last() == Some(&'p') && prefix.len() > 1 {
-                continue;
-            }
             prefix.push(a);
             rec(prefix, maxlen, emit);
             prefix.pop();
@@ -580,12 +577,43 @@ fn gen_exh(maxlen: usize, hosts: &[&str]) {
     }
     let mut k = 0usize;
     rec(&mut vec![], maxlen, &mut |p: &[char]| {
-        // alternate the constructor and the host so both see (about) every shape; the kind never changes the control flow
-        let kind = ["A", "T"][k % 2];
-        let host = hosts[(k / 2) % hosts.len()];
+        // the constructor never changes the control flow: alternate it unless told otherwise
+        let kind = match kinds {
+            "alt" => ["A", "T"][k % 2],
+            other => other,
+        };
         k += 1;
         let acts: Vec<String> = p.iter().map(|c| format!("{c}0")).collect();
         writeln!(out, "{host} {kind} {}", acts.join(" ")).unwrap();
+    });
+}
+
+/// every sequence up to `maxlen` over the legacy alphabet for one timer (a start first, duplicates bounded)
+fn gen_exh_legacy(maxlen: usize) {
+    let out = std::io::stdout();
+    let mut out = std::io::BufWriter::new(out.lock());
+    fn rec(prefix: &mut Vec<char>, maxlen: usize, emit: &mut dyn FnMut(&[char])) {
+        emit(prefix);
+        if prefix.len() == maxlen {
+            return;
+        }
+        let started = prefix.iter().any(|c| *c == 's' || *c == 'S');
+        let opts: &[char] = if started { &['c', 'f', 'w', 'k', 'r', 'a', 'p', 's'] } else { &['s', 'S', 'c', 'f'] };
+        for a in opts {
+            if prefix.iter().filter(|c| *c == a).count() >= 2 {
+                continue;
+            }
+            prefix.push(*a);
+            rec(prefix, maxlen, emit);
+            prefix.pop();
+        }
+    }
+    let mut k = 0usize;
+    rec(&mut vec![], maxlen, &mut |p: &[char]| {
+        let kind = ["A", "T"][k % 2];
+        k += 1;
+        let acts: Vec<String> = p.iter().map(|c| format!("{c}0")).collect();
+        writeln!(out, "legacy {kind} {}", acts.join(" ")).unwrap();
     });
 }
 
@@ -640,12 +668,16 @@ fn main() {
     match args.get(1).map(String::as_str) {
         Some("gen") => gen(args[2].parse().unwrap(), args[3].parse().unwrap()),
         Some("gen-exh") => {
-            let hosts: Vec<&str> = if args.len() > 3 { args[3].split(',').collect() } else { vec!["cmd"] };
-            gen_exh(args[2].parse().unwrap(), &hosts)
+            let host = args.get(3).map(String::as_str).unwrap_or("cmd");
+            if host == "legacy" {
+                gen_exh_legacy(args[2].parse().unwrap())
+            } else {
+                gen_exh(args[2].parse().unwrap(), host, args.get(4).map(String::as_str).unwrap_or("alt"))
+            }
         }
         Some("run") => run(),
         _ => {
-            eprintln!("usage: timer gen <seed> <n> | gen-exh <maxlen> [hosts] | run");
+            eprintln!("usage: timer gen <seed> <n> | gen-exh <maxlen> [cmd|core|legacy] [A|T|alt] | run");
             std::process::exit(2);
         }
     }
